@@ -405,7 +405,28 @@ def chain_embedding():
             else:
                 continue
     if f:
-        walk(f.body)
+        body = [s_ for s_ in f.body if not (isinstance(s_, ast.Expr) and isinstance(s_.value, ast.Constant))]
+        # the chain may select a local (`scenario = EdgeCaseZeroTP.X` in every branch) and return once at the end: each selecting
+        # branch is the return with the local substituted
+        last = body[-1] if body else None
+        if isinstance(last, ast.Return) and last.value is not None:
+            m = re.fullmatch(r"\(True, self\._edgecase_dict\[(\w+)\]\.value\)", src(last.value))
+            if m:
+                var = m.group(1)
+
+                def subst(stmts):
+                    out = []
+                    for st in stmts:
+                        if (isinstance(st, ast.Assign) and len(st.targets) == 1 and isinstance(st.targets[0], ast.Name) and st.targets[0].id == var
+                                and re.fullmatch(r"EdgeCaseZeroTP\.\w+", src(st.value))):
+                            out.append(ast.parse(f"return (True, self._edgecase_dict[{src(st.value)}].value)").body[0])
+                        elif isinstance(st, ast.If):
+                            out.append(ast.If(test=st.test, body=subst(st.body), orelse=subst(st.orelse)))
+                        else:
+                            out.append(st)
+                    return out
+                body = subst(body[:-1])
+        walk(body)
     return "[" + ", ".join(items) + "]"
 
 
